@@ -98,6 +98,8 @@ LawMergePoint(a, b, sn, sd) ==
 (*   net2       LaneletNetwork.translate_rotate on a network that contains the lanelet                         *)
 (*   setc / setl / setr   assign a new polyline through the center / left / right vertices setter               *)
 (*   mrgf / mrgs          merge with a successor that starts where the lane ends (predecessor / successor first)*)
+(*   draw       the lanelet is drawn + rendered inside a small network (successor of a lanelet that carries a   *)
+(*              traffic light with an active cycle): not a mutation - the lane stays what it was                *)
 (* After any history the answers must be those of the lane's CURRENT polylines: the cumulative distance and     *)
 (* PointAt are functions of the current vertices only.                                                         *)
 Rot(v, q) == CASE q = 0 -> v  [] q = 1 -> <<-v[2], v[1]>>  [] q = 2 -> <<-v[1], -v[2]>>  [] q = 3 -> <<v[2], -v[1]>>
@@ -110,7 +112,8 @@ MoveOf(tok) == CASE tok = "mv1"  -> [t |-> <<1, 2>>,  q |-> 1]
 MoveToks  == {"mv1", "mv3", "net2"}
 SetToks   == {"setc", "setl", "setr"}
 MergeToks == {"mrgf", "mrgs"}
-MutToks   == MoveToks \cup SetToks \cup MergeToks
+FrameToks == {"draw"}                     \* read-only operations between queries
+MutToks   == MoveToks \cup SetToks \cup MergeToks \cup FrameToks
 QueryToks == {"qd", "qi", "qall"}         \* distance only / one interpolate_position / the full query set
 (* the polyline the setters assign: the old one stretched by 2 about its first vertex (all arc lengths change) *)
 Stretch(P) == [i \in 1..Len(P) |-> <<2 * P[i][1] - P[1][1], 2 * P[i][2] - P[1][2]>>]
@@ -122,6 +125,7 @@ Apply(tok, a) == CASE tok \in MoveToks  -> MoveLane(a, MoveOf(tok).t, MoveOf(tok
                    [] tok = "setl"       -> [a EXCEPT !.l = Stretch(a.l)]
                    [] tok = "setr"       -> [a EXCEPT !.r = Stretch(a.r)]
                    [] tok \in MergeToks -> Merge(a, SuccLane(a))
+                   [] tok \in FrameToks -> a
 (* a rigid lattice motion keeps every cumulative distance and moves every interpolated point with the lane *)
 MoveRat(P, t, q) == LET d == P[1][2]                                     \* both coordinates share the denominator
                         w == Rot(<<P[1][1] + t[1] * d, P[2][1] + t[2] * d>>, q)
